@@ -1,0 +1,18 @@
+//go:build verif
+
+package encoding
+
+import "diagonal.works/b6/verifrt"
+
+// Lemmas of the b6vc verifier (/verif). Parameters are universally
+// quantified; the bodies call the real functions.
+
+// C10: zigzag coding is invertible over the whole int64 domain.
+func verifLemma_C10_zigzag(d int64) {
+	verifrt.Assert(ZigzagDecode(ZigzagEncode(d)) == d, "zigzag-roundtrip")
+}
+
+// C10: and it is onto: every uint64 is the encoding of exactly one int64.
+func verifLemma_C10_zigzag_onto(v uint64) {
+	verifrt.Assert(ZigzagEncode(ZigzagDecode(v)) == v, "zigzag-onto")
+}
